@@ -57,7 +57,7 @@ PROPS = {
  'C07': dict(level='other', footprint=True, lemmas=['I4', 'I6', 'I1', 'J1'],
    files=['src/bytecode_machine.cpp', 'src/bytecode_machine.hpp', 'src/jit_compiler_x86.cpp', 'src/configuration.h', 'src/common.hpp', 'doc/specs.md'],
    explanation='TODO', trusted=[], outside=[]),
- 'C14': dict(level='other', footprint=True, max_jobs_per_lemma=6, lemmas=['F1', 'H6', 'H7', 'I8', 'I1', 'J1', 'D1', 'D2', 'S1', 'S4', 'A5', 'A2', 'B2', 'B3', 'H1', 'H3', 'G4'],
+ 'C14': dict(level='other', footprint=True, max_jobs_per_lemma=6, lemmas=['F1', 'K1', 'H6', 'H7', 'I8', 'J3', 'J5', 'I1', 'J1', 'D1', 'D2', 'S1', 'S4', 'A5', 'A2', 'B2', 'B3', 'H1', 'H3', 'G4'],
    files=['src/randomx.cpp', 'src/virtual_machine.cpp', 'src/dataset.cpp', 'src/vm_interpreted_light.cpp', 'src/vm_compiled_light.cpp', 'src/superscalar.cpp', 'src/soft_aes.cpp', 'src/cpu.cpp', 'src/jit_compiler_x86_static.S'],
    explanation='TODO', trusted=[], outside=[]),
  'C02': dict(level='other', lemmas=['H1', 'F1', 'I7', 'I8', 'I1', 'B1', 'B2', 'B3', 'B4', 'A1', 'A2', 'A3', 'A5', 'S1', 'S4', 'S5', 'D1', 'G1', 'G4', 'R1'],
